@@ -96,6 +96,8 @@ pub struct Gen {
     /// decimal (non-dyadic) pacing factors, incl. `Pacing::DEFAULT` and `STOP_THE_WORLD`: the
     /// model's exact rationals then differ from f64 by rounding, compared with a tolerance (`odt`)
     pub decimal: bool,
+    /// the `new 0` just pushed is a `rootless_mutate` call (otherwise: an arena with a plain root)
+    rootless_pending: bool,
 }
 
 /// `x` as an exact dyadic rational, if it is one with a small denominator.
@@ -117,7 +119,7 @@ impl Gen {
     pub fn new(seed: u64, profile: Profile, max_ops: usize) -> Gen {
         let mut rng = Rng(seed);
         let narenas = if profile == Profile::Multi { 2 + rng.below(2) } else { 1 };
-        Gen { rng, profile, max_ops, emitted: 0, queue: VecDeque::new(), cb_stack: vec![], narenas, finishing: 0, done: false, want_reclaim: false, soak_prev: None, soak_pacing: None, shell_script: None, weak_soak: 0, decimal: false }
+        Gen { rng, profile, max_ops, emitted: 0, queue: VecDeque::new(), cb_stack: vec![], narenas, finishing: 0, done: false, want_reclaim: false, soak_prev: None, soak_pacing: None, shell_script: None, weak_soak: 0, decimal: false, rootless_pending: false }
     }
 
     fn pacing(&mut self) -> PacingSpec {
@@ -512,9 +514,85 @@ impl Gen {
         self.push(ai, Op::Collect { method: Method::FinishCycle, cont: Cont::Drop, fault: None });
     }
 
+    /// Script (C09 rho-bound / C10 counters): writes to black, pointer-free lock cells while a cycle
+    /// runs.  Default-like dyadic pacing (rho = 9/16); a holder node with three `leafcell`s in the
+    /// root (H = 4); a full cycle; allocations past the wake-up amount and a `cycle_debt` that wakes
+    /// the collector; then rounds of (one allocation, K in 1..=3 cell writes, `cycle_debt` or
+    /// `collect_debt`) for at least 2 rho H / (1 - rho) rounds.  Each write re-queues a black cell
+    /// and takes its (saturating) trace credit back; re-tracing it gives the credit again: writes
+    /// alone pay nothing, so the cycle must complete within the rho-bound.
+    fn leaf_write_soak(&mut self, w: &World, ai: usize) {
+        let n = w.arenas[ai].shadow.objs.len() as u32;
+        let reach = w.arenas[ai].shadow.reachable().len();
+        let ms = 2;
+        let p = PacingSpec { sleep: dy(1, 1), min_sleep: ms, mark: dy(1, 3), trace: dy(3, 3), keep: dy(1, 4), drop: dy(1, 2), free: dy(1, 2) };
+        self.push(ai, Op::Pacing(p));
+        self.push(ai, Op::Enter(Cb::MutateRoot));
+        for _ in 0..3 {
+            self.push(ai, Op::Alloc { kind: Kind::LeafCell, slots: vec![] });
+        }
+        self.push(ai, Op::Alloc { kind: Kind::Node, slots: vec![Some(SP::S(n)), Some(SP::S(n + 1)), Some(SP::S(n + 2))] });
+        let ri = self.rng.below(4);
+        self.push(ai, Op::RootStore { i: ri, v: Some(SP::S(n + 3)) });
+        self.push(ai, Op::Leave { panic: false });
+        self.push(ai, Op::Collect { method: Method::FinishCycle, cont: Cont::Drop, fault: None });
+        // wake by allocation: past max(min_sleep, survivors / 2)
+        let h = reach + 4;
+        let wake = (h.div_ceil(2)).max(ms);
+        self.push(ai, Op::Enter(Cb::Mutate));
+        for _ in 0..wake + 1 {
+            self.push(ai, Op::Alloc { kind: Kind::Leaf, slots: vec![] });
+        }
+        self.push(ai, Op::Leave { panic: false });
+        self.push(ai, Op::Collect { method: Method::CycleDebt, cont: Cont::Drop, fault: None });
+        // 2 rho H / (1 - rho) = 18 H / 7 rounds, and a few more
+        let rounds = (18 * (h + wake + 1)).div_ceil(7) + 2;
+        for _ in 0..rounds {
+            self.push(ai, Op::Enter(Cb::Mutate));
+            self.push(ai, Op::ReadRoot(ri));
+            let k = 1 + self.rng.below(3);
+            let first = self.rng.below(3);
+            for c in 0..k {
+                self.push(ai, Op::Read(n + 3, (first + c) % 3));
+            }
+            self.push(ai, Op::Alloc { kind: Kind::Leaf, slots: vec![] });
+            for c in 0..k {
+                self.push(ai, Op::Barrier(Barrier::CellSet(n + ((first + c) % 3) as u32)));
+            }
+            self.push(ai, Op::Leave { panic: false });
+            let method = if self.rng.chance(3, 4) { Method::CycleDebt } else { Method::CollectDebt };
+            self.push(ai, Op::Collect { method, cont: Cont::Drop, fault: None });
+        }
+        self.cb_stack.clear();
+    }
+
+    /// Script (C02 / C06): a backward barrier on a *black, non-tracing* object during Mark (a leaf,
+    /// or the safe setter of a pointer-free lock cell), then the object is unrooted and two full
+    /// cycles run: it must be destructed and released like any other garbage.
+    fn gray_leaf_script(&mut self, w: &World, ai: usize) {
+        let n = w.arenas[ai].shadow.objs.len() as u32;
+        let cell = self.rng.chance(2, 3);
+        let ri = self.rng.below(4);
+        self.push(ai, Op::Enter(Cb::MutateRoot));
+        self.push(ai, Op::Alloc { kind: if cell { Kind::LeafCell } else { Kind::Leaf }, slots: vec![] });
+        self.push(ai, Op::RootStore { i: ri, v: Some(SP::S(n)) });
+        self.push(ai, Op::Leave { panic: false });
+        self.push(ai, Op::Collect { method: Method::FinishMarking, cont: Cont::Drop, fault: None });
+        self.push(ai, Op::Enter(Cb::MutateRoot));
+        self.push(ai, Op::ReadRoot(ri));
+        self.push(ai, Op::Barrier(if cell { Barrier::CellSet(n) } else { Barrier::Bb(n, None) }));
+        if self.rng.chance(3, 4) {
+            self.push(ai, Op::RootStore { i: ri, v: None });
+        }
+        self.push(ai, Op::Leave { panic: false });
+        self.push(ai, Op::Collect { method: Method::FinishCycle, cont: Cont::Drop, fault: None });
+        self.push(ai, Op::Collect { method: Method::FinishCycle, cont: Cont::Drop, fault: None });
+        self.cb_stack.clear();
+    }
+
     /// an op that does nothing of interest: `readroot`, or — without a root — an allocation
     fn idle_op(&mut self, w: &World, ai: usize) {
-        if w.arenas[ai].shadow.cb.is_some_and(|k| k.has_root()) {
+        if w.arenas[ai].shadow.cb.is_some_and(|k| k.has_root()) && !w.arenas[ai].shadow.root.is_empty() {
             let i = self.rng.below(4);
             self.push(ai, Op::ReadRoot(i));
         } else {
@@ -774,7 +852,10 @@ impl Gen {
         if r < w_alloc {
             let leaf_odds = if self.profile == Profile::Metrics { 4 } else { 1 };
             if self.rng.chance(leaf_odds, 10) {
-                self.push(ai, Op::Alloc { kind: Kind::Leaf, slots: vec![] });
+                // non-tracing objects: plain leaves, and (where barriers / metrics are the subject)
+                // cells whose whole value is a pointer-free lock
+                let cell = matches!(self.profile, Profile::Metrics | Profile::Pacing | Profile::Barrier | Profile::Reclaim | Profile::Core | Profile::Weak) && self.rng.chance(1, 2);
+                self.push(ai, Op::Alloc { kind: if cell { Kind::LeafCell } else { Kind::Leaf }, slots: vec![] });
             } else {
                 // the lock-valued kinds, in the profiles that use them (an empty OnceCell keeps trace
                 // faults from being injected, so the fault profile allocates few and fills most at once)
@@ -889,7 +970,7 @@ impl Gen {
         }
         r -= w_store;
         if r < w_root {
-            if kind.root_mut() {
+            if kind.root_mut() && !sh.root.is_empty() {
                 let i = self.rng.below(4);
                 let v = self.slot_value(w, ai, weak_bias);
                 self.push(ai, Op::RootStore { i, v });
@@ -932,6 +1013,15 @@ impl Gen {
         r -= w_weak;
         if r < w_barrier {
             // barrier-only op on arbitrary held pointers (including non-tracing objects)
+            let cells: Vec<u32> = strong.iter().copied().filter(|i| sh.objs[*i as usize].kind == Kind::LeafCell).collect();
+            if !cells.is_empty() && self.rng.chance(1, 3) {
+                // the safe setter of a pointer-free lock cell; a black one if there is one
+                let cols = &w.arenas[ai].colors;
+                let black: Vec<u32> = cells.iter().copied().filter(|i| cols.get(i).map(|c| c.0) == Some(b'B')).collect();
+                let c = *self.rng.pick(if black.is_empty() { &cells } else { &black }).unwrap();
+                self.push(ai, Op::Barrier(Barrier::CellSet(c)));
+                return;
+            }
             let p = self.rng.pick(&strong).copied();
             let c = self.rng.pick(&strong).copied();
             let wk = self.rng.pick(&weak).copied();
@@ -1222,7 +1312,14 @@ impl Gen {
         // create arenas first
         if w.arenas.len() < self.narenas {
             let ai = w.arenas.len();
-            self.push(ai, Op::New(4));
+            // about one arena in six has a pointer-free root (NEEDS_TRACE = false); in the multi
+            // profile the second arena often is one
+            let plain = match self.profile {
+                Profile::Protocol | Profile::Pacing | Profile::Core => self.rng.chance(1, 6),
+                Profile::Multi => ai == 1 && self.rng.chance(1, 2),
+                _ => false,
+            };
+            self.push(ai, Op::New(if plain { 0 } else { 4 }));
             let p = self.pacing();
             self.push(ai, Op::Pacing(p));
             return;
@@ -1234,6 +1331,10 @@ impl Gen {
         };
         if self.shell_script.is_some() && self.shell_script_step(w) {
             return;
+        }
+        if w.arenas[ai].shadow.root.is_empty() {
+            // an arena with a pointer-free root: the scripts below hang things from the root
+            return self.top_generic(w, ai, live.len());
         }
         if matches!(self.profile, Profile::Weak | Profile::Barrier | Profile::Core | Profile::Reclaim)
             && self.emitted + 60 < self.max_ops.max(61)
@@ -1267,6 +1368,22 @@ impl Gen {
         {
             return self.fault_credit_script(w, ai);
         }
+        // C02 / C06: barrier on a black non-tracing object, then it becomes garbage
+        if matches!(self.profile, Profile::Reclaim | Profile::Core | Profile::Weak | Profile::Barrier)
+            && self.emitted + 15 < self.max_ops
+            && w.arenas[ai].phase != b'S'
+            && self.rng.chance(1, 14)
+        {
+            return self.gray_leaf_script(w, ai);
+        }
+        // C09 / C10: cell writes must not pay debt
+        if matches!(self.profile, Profile::Pacing | Profile::Metrics)
+            && self.emitted * 2 < self.max_ops
+            && w.arenas[ai].shadow.reachable().len() <= 4
+            && self.rng.chance(1, 14)
+        {
+            return self.leaf_write_soak(w, ai);
+        }
         // C09 / C08: collect_debt rolling over a cycle end, then the sleep it must honour
         if matches!(self.profile, Profile::Pacing | Profile::Protocol)
             && self.emitted * 2 < self.max_ops
@@ -1284,11 +1401,17 @@ impl Gen {
             && self.rng.chance(1, 60)
         {
             let ri = w.arenas.len();
+            self.rootless_pending = true;
             self.push(ri, Op::New(0));
             let n = 2 + self.rng.below(9);
             self.cb_stack.push((ri, n));
             return;
         }
+        self.top_generic(w, ai, live.len());
+    }
+
+    /// One top-level step of the generic mix: a callback, a collection call, a pacing / debt change.
+    fn top_generic(&mut self, w: &World, ai: usize, nlive: usize) {
         let r = self.rng.below(100);
         let (p_mut, p_mroot, p_collect) = match self.profile {
             Profile::Protocol => (25, 10, 60),
@@ -1315,6 +1438,7 @@ impl Gen {
             } else {
                 Cb::TryMapRootErr
             };
+            let kind = if w.arenas[ai].shadow.root.is_empty() { Cb::MutateRoot } else { kind };
             self.push(ai, Op::Enter(kind));
             let n = 1 + self.rng.below(9);
             self.cb_stack.push((ai, n));
@@ -1357,7 +1481,7 @@ impl Gen {
         } else if r < 98 {
             let p = self.pacing();
             self.push(ai, Op::Pacing(p));
-        } else if self.profile == Profile::Multi && live.len() > 1 {
+        } else if self.profile == Profile::Multi && nlive > 1 {
             self.push(ai, Op::DropArena);
         } else {
             let k = self.rng.below(6) as i64;
@@ -1367,6 +1491,10 @@ impl Gen {
 }
 
 impl Source for Gen {
+    fn begin_rootless(&mut self, _w: &World, _ai: usize) -> bool {
+        std::mem::take(&mut self.rootless_pending)
+    }
+
     fn want_ctor(&mut self, _w: &World, ai: usize) -> Option<Cb> {
         if matches!(self.profile, Profile::Soak) || !self.rng.chance(1, 4) {
             return None;
@@ -1413,11 +1541,13 @@ impl Source for Gen {
                 }
                 self.cb_stack.last_mut().unwrap().1 -= 1;
                 // occasionally operate on another arena from inside this callback
-                if self.profile == Profile::Multi && self.rng.chance(1, 8) {
+                if self.profile == Profile::Multi && self.rng.chance(1, 5) {
                     let others: Vec<usize> = (0..w.arenas.len()).filter(|i| *i != ai && w.arenas[*i].shadow.alive && w.arenas[*i].shadow.cb.is_none()).collect();
                     if let Some(b) = self.rng.pick(&others).copied() {
-                        let method = *self.rng.pick(&Method::ALL).unwrap();
-                        let k = self.rng.below(8) as i64;
+                        // mostly a debt-driven call, and mostly with the other arena clearly in debt: it
+                        // must behave exactly as it would standalone
+                        let method = if self.rng.chance(2, 3) { [Method::CollectDebt, Method::CycleDebt, Method::MarkDebt][self.rng.below(3)] } else { *self.rng.pick(&Method::ALL).unwrap() };
+                        let k = if self.rng.chance(1, 2) { 16 + self.rng.below(48) as i64 } else { self.rng.below(8) as i64 };
                         self.push(b, Op::Adjust(dy(k, 0)));
                         self.push(b, Op::Collect { method, cont: Cont::Drop, fault: None });
                         continue;
@@ -1472,9 +1602,12 @@ impl Source for Replay {
         }
     }
 
-    fn begin_rootless(&mut self, _w: &World, ai: usize) {
+    fn begin_rootless(&mut self, _w: &World, ai: usize) -> bool {
         if matches!(self.ops.front(), Some((a, Op::Enter(Cb::Rootless))) if *a == ai) {
             self.ops.pop_front();
+            true
+        } else {
+            false
         }
     }
 
